@@ -45,6 +45,7 @@ def parse_snap(snap):
 
 class Shadow:
     def __init__(self, kind):
+        self.susp = {}       # handle -> lock call suspended in its eviction callback
         self.kind = kind
         self.vals = {}
         self.stamp = {}
@@ -100,6 +101,13 @@ class Shadow:
         self.wake(k)
         return k
 
+    def update_busy(self, i):
+        """busy periods per key (for C09): a key is busy while it is held by any guard or awaited"""
+        busy_now = set(k for k in self.present() if not self.free(k))
+        for k in self.was_busy - busy_now:
+            self.busy_end[k] = i
+        self.was_busy = busy_now
+
     def wake(self, k):
         """the first waiter of a key that is not held is handed the lock (it stays 'reserved' until polled)"""
         q = self.queue.get(k)
@@ -153,10 +161,7 @@ def check_case(kind, pairs):
             fail(['C05'] + REQ_PROPS.get(cmd, []), i, f'unexpected reply `{reply}` to `{req}`: {e!r}')
             break
         # busy periods per key (for C09): a key is busy while it is held by any guard or awaited
-        busy_now = set(k for k in sh.present() if not sh.free(k))
-        for k in sh.was_busy - busy_now:
-            sh.busy_end[k] = i
-        sh.was_busy = busy_now
+        sh.update_busy(i)
         # ---- after every step: accounting (C04), values (C02), lock flags (C01), stamps (C10)
         ps = parse_snap(snap)
         if ps is None:
@@ -191,29 +196,13 @@ def check_case(kind, pairs):
 
 
 EV = re.compile(r'ev\(([^)]*)\)')
+SUSP = re.compile(r'susp\(([^)]*)\)')
 
 
-def check_one(sh, kind, toks, res, i, fail):
-    cmd = toks[0]
-    if cmd == 'lock':
-        var, h, k, h0 = toks[1], int(toks[2]), int(toks[3]), int(toks[4])
-        trying = var in ('t', 'to', 'ta', 'tao')
-        limit = None
-        if toks[5] == 'soft':
-            limit = int(toks[6])
-            script = [] if toks[7] == '-' else [r.split(',') for r in toks[7].split(';')]
-        parts = res.split(' ')
-        evs = [p for p in parts if p.startswith('ev(')]
-        outcome = parts[-1]
-        if limit is None and evs:
-            fail(['C07'], i, 'eviction callback invoked without a limit')
-        # keys that are locked, awaited or referenced by a pending acquisition / stream item cannot be evicted
-        locked_before = len([c for c in sh.present() if sh.refs(c) > 0 or not sh.free(c)])
-        cooperative = True
-        for r, ev in enumerate(evs):
-            body = EV.match(ev).group(1)
-            segs = body.split(';')
-            cands = [] if segs[0] == '-' else [tuple(int(x) for x in c.split(':')) for c in segs[0].split(',')]
+def cand_checks(sh, kind, cands, limit, i, fail):
+    """C07/C09: what an eviction callback may be given, judged when it is invoked; registers the guards"""
+    if True:
+        if True:
             n_present = len(sh.present())
             # C07: only at the limit, right candidates, not more than needed
             if n_present < limit:
@@ -239,14 +228,53 @@ def check_one(sh, kind, toks, res, i, fail):
                 check_lru_order(sh, [c[1] for c in cands], eligible, i, fail)
             for (ch, c) in cands:
                 sh.guards[ch] = c
+
+
+def lock_reply(sh, kind, call, res, i, fail):
+    """the reply to a `lock` request, or to the `poll` that resumes a call suspended in its eviction callback"""
+    var, h, k, limit, script = call['var'], call['h'], call['k'], call['limit'], call['script']
+    trying = var in ('t', 'to', 'ta', 'tao')
+    locked_before = call['locked_before']
+    if True:
+        parts = res.split(' ')
+        evs = [p for p in parts if p.startswith('ev(') or p.startswith('susp(')]
+        outcome = parts[-1]
+        if limit is None and evs:
+            fail(['C07'], i, 'eviction callback invoked without a limit')
+        cooperative = call['cooperative']
+        r0 = call['r']
+        for r, ev in enumerate(evs, r0):
+            suspending = ev.startswith('susp(')
+            body = SUSP.match(ev).group(1) if suspending else EV.match(ev).group(1)
+            segs = body.split(';')
+            cands = [] if segs[0] == '-' else [tuple(int(x) for x in c.split(':')) for c in segs[0].split(',')]
             rnd = script[r] if r < len(script) else ['ok']
             fin = rnd[-1]
-            acts = [a for a in rnd[:-1] if a != 'recount']
+            acts = [a for a in rnd[:-1] if a not in ('recount', 'pend')]
+            resumed = call['susp'] is not None
+            if resumed:
+                # the round whose callback future was pending: same guards, now it does its work
+                if cands != call['susp']:
+                    fail(['C08', 'C05'], i, f'resumed round works on {cands}, the suspended callback owned {call["susp"]}')
+                call['susp'] = None
+            if not resumed:
+                cand_checks(sh, kind, cands, limit, i, fail)
+            if suspending:
+                cooperative = False
+                if 'pend' not in rnd:
+                    fail(['C08'], i, f'round {r} is reported as suspended but its script is {rnd}')
+                if r - r0 != len(evs) - 1 or parts[-1] != 'pending':
+                    fail(['C08', 'C05'], i, f'suspended in round {r} but the call answered {parts[-1]}')
+                call.update(r=r, cooperative=False, susp=cands)
+                sh.susp[h] = call
+                return
+            if 'pend' in rnd and not resumed:
+                fail(['C08'], i, f'round {r} has a pending callback future but ran through')
             if fin == 'panic':
                 cooperative = False
                 for (ch, c) in cands:
                     sh.drop_guard(ch)
-                if outcome != 'upanic' or r != len(evs) - 1:
+                if outcome != 'upanic' or r - r0 != len(evs) - 1:
                     fail(['C15'], i, f'callback panicked in round {r} but the call answered {outcome}')
                 continue
             for j, (ch, c) in enumerate(cands):
@@ -264,6 +292,8 @@ def check_one(sh, kind, toks, res, i, fail):
                     sh.drop_guard(ch)
                 elif a == 'stash':
                     cooperative = False
+            if resumed:
+                sh.update_busy(i)
             if 'recount' in rnd:
                 m = re.search(r'c=(\d+);k=(\S+)$', body)
                 if not m:
@@ -274,12 +304,12 @@ def check_one(sh, kind, toks, res, i, fail):
                         fail(['C04', 'C08'], i, f're-entrant count/keys {m.group(1)}/{sorted(seen_k)} vs {sorted(sh.present())}')
             if fin == 'err':
                 cooperative = False
-                if outcome != 'err' or r != len(evs) - 1:
+                if outcome != 'err' or r - r0 != len(evs) - 1:
                     fail(['C08'], i, f'callback failed in round {r} but the call answered {outcome}')
             if fin == 'lpanic':
                 # the guards were worked on in place and then dropped by the unwinding: same net effect as above
                 cooperative = False
-                if outcome != 'upanic' or r != len(evs) - 1:
+                if outcome != 'upanic' or r - r0 != len(evs) - 1:
                     fail(['C15'], i, f'callback panicked (after working on its guards) in round {r} but the call answered {outcome}')
         if outcome in ('err', 'upanic'):
             if not evs:
@@ -318,6 +348,30 @@ def check_one(sh, kind, toks, res, i, fail):
             sh.begin_use(h, k)
         else:
             raise Fail(f'unknown lock outcome {outcome}')
+
+
+def check_one(sh, kind, toks, res, i, fail):
+    cmd = toks[0]
+    if cmd == 'lock':
+        var, h, k, h0 = toks[1], int(toks[2]), int(toks[3]), int(toks[4])
+        limit, script = None, []
+        if toks[5] == 'soft':
+            limit = int(toks[6])
+            script = [] if toks[7] == '-' else [r.split(',') for r in toks[7].split(';')]
+        # keys that are locked, awaited or referenced by a pending acquisition / stream item cannot be evicted
+        locked_before = len([c for c in sh.present() if sh.refs(c) > 0 or not sh.free(c)])
+        call = dict(var=var, h=h, k=k, limit=limit, script=script, r=0, locked_before=locked_before, cooperative=True, susp=None)
+        lock_reply(sh, kind, call, res, i, fail)
+    elif cmd == 'poll' and int(toks[1]) in sh.susp:
+        # the pending future of the eviction callback is polled again: the call goes on
+        lock_reply(sh, kind, sh.susp.pop(int(toks[1])), res, i, fail)
+    elif cmd == 'cancel' and int(toks[1]) in sh.susp:
+        # the suspended call is abandoned: the callback's future releases its guards untouched
+        call = sh.susp.pop(int(toks[1]))
+        for (ch, c) in call['susp']:
+            sh.drop_guard(ch)
+        if res != 'ok':
+            fail(['C06'], i, f'cancel answered {res}')
     elif cmd == 'poll':
         h = int(toks[1])
         if h not in sh.pend:
